@@ -1483,6 +1483,12 @@ func (l *lexer) scanParamExpInBraces() bool {
 	if r, err = l.read(); err != nil {
 		goto Error
 	}
+	if pe.Op == "#" && r != '}' {
+		// the string length takes no operator
+		l.unread()
+		err = errParamExp
+		goto Error
+	}
 Op:
 	switch r {
 	case ':':
